@@ -103,6 +103,33 @@ def run(chk):
         chk.violation("manager-history", {"cfg": base_cfg, "variant": "the manager first ran a job with max_boreholes=2 (all setters), then all setters again without a cap"},
                       {"design": {"ok": rcap.get("ok"), "exc": rcap.get("exc"), "nbh": rcap.get("nbh"), "H": rcap.get("H")}, "fresh_manager": {"nbh": fresh["nbh"], "H": fresh["H"]}},
                       "the design depends on the values last set, not on what was set before")
+    # a setter called AFTER set_design, find_design directly afterwards: Model/ObjState.gstep says the design keeps the inputs of the last
+    # set_design (C13_design_is_the_last_capture).  The model's prediction is compared first; the property itself only needs the result to be
+    # the design of ONE of the two inputs, in full
+    latec = json.loads(json.dumps(base_cfg))
+    latec["design"]["max_eft"] = 39.0
+    late = json.loads(json.dumps(latec))
+    late["_set_after_design_without_set_design"] = {"section": "design", "values": {"max_eft": base_cfg["design"]["max_eft"]}}
+    rl, r2 = e2e_runs([late, latec])
+    chk.cov["evaluations"] += 2
+
+    def same_design(a, b):
+        if not a.get("ok") or not b.get("ok"):
+            return a.get("ok") == b.get("ok") and a.get("exc") == b.get("exc")
+        return a["nbh"] == b["nbh"] and a["H"] == b["H"] and a.get("resim_max") == b.get("resim_max")
+    if any(r.get("exc") == "HarnessError" for r in (rl, r2)):
+        chk.broken.append({"name": "end-to-end run failed in the harness (late setter)", "detail": str([r.get("msg") for r in (rl, r2)])[:300]})
+    elif not same_design(fresh, r2):          # otherwise the two inputs cannot be told apart
+        nontrivial += 1
+        if same_design(rl, fresh):
+            chk.cov["late_setter_matches_model"] = True
+        elif same_design(rl, r2):
+            chk.broken.append({"name": "correspondence C13: Model/ObjState.gstep (the design keeps the inputs of the last set_design) differs from GHEManager: a setter called after set_design reached the design",
+                               "detail": json.dumps({"late": [rl.get("nbh"), rl.get("H")], "inputs_at_set_design": [fresh.get("nbh"), fresh.get("H")], "inputs_set_afterwards": [r2.get("nbh"), r2.get("H")]})})
+        else:
+            chk.violation("manager-history", {"cfg": base_cfg, "variant": "max_eft set to 39 after set_design, find_design without calling set_design again"},
+                          {"design": [rl.get("nbh"), rl.get("H"), rl.get("exc")], "design_of_the_inputs_at_set_design": [fresh.get("nbh"), fresh.get("H")], "design_of_the_inputs_set_afterwards": [r2.get("nbh"), r2.get("H")]},
+                          "the design depends only on the physical inputs: it is the design of the inputs at the last set_design or of the inputs set afterwards, not a mixture")
     # input files run one after the other through the command-line worker in one process: each result is that of the file run alone
     rwa = cfg("ROWWISE", months=12, loads={"kind": "balanced", "scale": 26000.0, "seed": 5},                    # with a perimeter spacing ratio
               geom_over={"property_boundary": [[0.0, 0.0], [48.0, 0.0], [58.0, 28.0], [30.0, 46.0], [0.0, 34.0]], "no_go_boundaries": [], "max_spacing": 12.0, "min_spacing": 5.0,
